@@ -46,7 +46,7 @@ TEXTS = {
     },
     "C17": {
         "technique": "runtime reference-model monitor + permutation differential: all permutations of small result streams, 50 random permutations of larger ones",
-        "level_text": "4e4 (quick) to 4e5 (thorough) generated streams over <= 6 queries x <= 6 tracks x 0..5 distances per pair (distances non-negative, all negative or of mixed sign in [-1, 1]; overlapping and disjoint id spaces; ulp-level near ties); TopN, BestFit, Hungarian and Visual voting outputs are checked against references written from the statement and against their own outputs on permuted streams (every 4th stream is small and run in all of its <= 5040 orders).",
+        "level_text": "4e4 (quick) to 4e5 (thorough) generated streams over <= 6 queries x <= 6 tracks x 0..5 distances per pair (distances non-negative, all negative or of mixed sign in [-1, 1]; overlapping and disjoint id spaces, a quarter of the streams with wide two-part u64 ids; ulp-level near ties); TopN, BestFit, Hungarian and Visual voting outputs are checked against references written from the statement and against their own outputs on permuted streams (every 4th stream is small and run in all of its <= 5040 orders).",
         "level_note": "Streams are sampled; permutations of small streams are enumerated completely. Near-ties (1e-6 relative) downgrade a comparison and are counted.",
     },
     "C07": {
@@ -56,7 +56,7 @@ TEXTS = {
     },
     "C09": {
         "technique": "runtime reference-model monitor: sequential map model shadowing every store operation, full state comparison through get_store() after each step; exhaustive short sequences + random long ones; Miri (thorough)",
-        "level_text": "All operation sequences of length <= 2 (quick) / <= 3 (thorough, 70^3 x 2 shard counts) over a 70-operation alphabet are executed against the real store, plus tens of thousands of sampled length-3 and hundreds to thousands of random sequences of 50..400 operations on 1..5 shards; after every single operation the return value and the complete contents of every shard are compared with a sequential model built on the workload's own attribute / metric callbacks (incl. data-driven callback failures). In the random sequences four threads periodically issue the &self operations (lookup with every query kind, shard_stats) concurrently against the quiescent store; each call must return the model's answer. A third of the non-blocking merges are fire-and-forget (future dropped while the merge is in flight); a quiescence detector turns a store operation that never returns into a deadlock violation.",
+        "level_text": "All operation sequences of length <= 2 (quick) / <= 3 (thorough, 70^3 x 2 shard counts) over a 70-operation alphabet are executed against the real store, plus tens of thousands of sampled length-3 and hundreds to thousands of random sequences of 50..400 operations on 1..5 shards (half of them over wide u64 ids: 2^32+x, x<<32|x, hashed, u64::MAX-x); after every single operation the return value and the complete contents of every shard are compared with a sequential model built on the workload's own attribute / metric callbacks (incl. data-driven callback failures). In the random sequences four threads periodically issue the &self operations (lookup with every query kind, shard_stats) concurrently against the quiescent store; each call must return the model's answer. A third of the non-blocking merges are fire-and-forget (future dropped while the merge is in flight); a quiescence detector turns a store operation that never returns into a deadlock violation.",
         "level_note": "The model calls the same user callbacks, so the oracle is the composition rule of the store / track code. Non-blocking merges are awaited before the next operation. Random sequences are sampled.",
     },
     "C10": {
@@ -87,12 +87,12 @@ TEXTS = {
     "C12": {
         "technique": "runtime oracle: independent re-derivation of every VisualSORT decision from the galleries read out of the store before each call (usability, votes, claim weights, contests) + C02 positional oracle for the fallback stage",
         "level_text": "Hundreds (quick) to 1.2e4 (thorough) histories over the option grid (cosine thresholds -0.3..0.95, Euclidean 0.3..1.6) with look-alike / crossing / crowded / occluded objects and stable or noisy appearance embeddings; thousands of appearance contests per quick run. For every call the record's (track, voting type) is checked against the reference claims: visual only for a qualifying claim of the greatest-weight claimant, best claims honoured, losers never attached to the contested track, claim-less detections optimally assigned among the remaining tracks.",
-        "level_note": "Threshold comparisons on computed quantities have 1e-5..1e-4 bands (undecidable calls are counted); qualities are drawn from a grid that hits the thresholds exactly so that >= vs > is exercised on inputs. Own-area shares come from the library (C15).",
+        "level_note": "Threshold comparisons on computed quantities have 1e-5..1e-4 bands (undecidable calls are counted); qualities are drawn from a grid that hits the thresholds exactly so that >= vs > is exercised on inputs. Own-area shares used for the use / collect thresholds are an f64 inclusion-exclusion reference over the call's boxes (decisions within 1e-3 of the threshold are skipped and counted).",
     },
     "C13": {
         "technique": "runtime shadow-state monitor: per-track shadow lists maintained from the API boundary vs galleries / histories read from the store after every call; unique features identify their detection",
         "level_text": "All four trackers; histories up to ~800 calls with 1..2 long-lived objects (track lifetimes to several hundred updates) and shorter multi-object ones; after every call every touched track is checked for history contents/order/length, gallery bound, collected count, eviction of a minimal-quality feature, collect-threshold filtering, layout (entry 0 newest with box) and, on wasted(), the conversions and the gallery of the expired track itself (reported count = stored features = gallery last seen alive). Qualities above 1 occur.",
-        "level_note": "Which of several equal-minimal-quality features is evicted is not prescribed (observed). Collect decisions inside the numeric band are skipped and counted.",
+        "level_note": "Which of several equal-minimal-quality features is evicted is not prescribed (observed). Collect decisions inside the numeric band are skipped and counted; the own-area share is an independent f64 reference, not the library's function.",
     },
     "C20": {
         "technique": "exhaustive table enumeration against a reference lookup + differential / invariant monitors on constrained vs unconstrained tracker runs",
@@ -100,7 +100,7 @@ TEXTS = {
         "level_note": "Table part is exhaustive for the stated alphabet; tracker histories are sampled.",
     },
     "C04": {
-        "technique": "runtime differential monitor: interleaved multi-scene run vs fresh single-scene replays of each scene's projection (id bijection, bit-exact numbers) + lifecycle model; explain-divergence oracle for near ties",
+        "technique": "runtime differential monitor: interleaved multi-scene run vs fresh single-scene replays of each scene's projection (id bijection, bit-exact numbers) + lifecycle model; explain-divergence oracle for near ties; pipelined re-run of batch histories (one-scene batches A, B, A, ... submitted back to back under stalled store writes) judged call by call",
         "level_text": "Sort / VisualSort / BatchSort / BatchVisualSort histories of 30..90 calls (or multi-scene batches) over 2..4 scenes, 60% with all scenes occupying the same image region, ~3% with a further scene of the same tracker holding 1200..1600 untouched tracks next to crowded scenes; each scene's records are compared call by call with a fresh tracker fed only that scene's calls; cross-scene attachments are additionally caught by the lifecycle model.",
         "level_note": "A grouping difference is only accepted as a tie when both outcomes pass the C02/C12 reference on their own pre-states; such ties are counted and capped at 0.1% of compared calls.",
     },
